@@ -98,7 +98,9 @@ func expectedName(op regOp) (string, bool) {
 }
 
 var regModel = porcupine.Model{
-	Init: func() interface{} { return regState{acc: map[string]int{}, com: map[string]int{}, cur: map[string]bool{}} },
+	Init: func() interface{} {
+		return regState{acc: map[string]int{}, com: map[string]int{}, cur: map[string]bool{}}
+	},
 	Step: func(state, input, output interface{}) (bool, interface{}) {
 		st := state.(regState)
 		in := input.(regOp)
